@@ -468,7 +468,8 @@ func (fr *Frame) doAppend(c *ssa.CallCommon, args []*Val) *Val {
 		}
 		// general case: quantified description of the destination content
 		dst := vc.fresh("append_dst", arrSort(sortOf(leaf.typ)))
-		base := ite(fitsC, sOff(s), "0")
+		base := vc.fresh("append_base", sInt)
+		vc.fact(eq(base, ite(fitsC, sOff(s), "0")))
 		vc.fact(fmt.Sprintf("(forall ((j! Int)) (! (=> (and (<= 0 j!) (< j! %s)) (= (select %s (+ %s %s j!)) (select %s (+ %s j!)))) :pattern ((select %s (+ %s %s j!)))))",
 			n, dst, base, sLen(s), srcArr, sOff(t), dst, base, sLen(s)))
 		vc.fact(fmt.Sprintf("(forall ((j! Int)) (! (=> (and (<= 0 j!) (< j! %s)) (= (select %s (+ %s j!)) (select %s (+ %s j!)))) :pattern ((select %s (+ %s j!)))))",
